@@ -50,6 +50,11 @@ impl Segment {
         self.data = vec![];
     }
 
+    /// Was anything emitted, or the program counter moved, since the segment was created or reset?
+    pub fn is_touched(&self) -> bool {
+        !self.data.is_empty() || self.pc != self.options.initial_pc
+    }
+
     pub fn pc(&self) -> ProgramCounter {
         self.pc
     }
